@@ -46,6 +46,31 @@ AN_MAINS = (
     "{% macro m a, b: 1 %}{{ a }}{{ b }}{{ outer }}{% render 'an/r2', y: a %}{% endmacro %}{% call m user.name %}{% with w1: n %}{% include 'an/i1' %}{{ w1 }}{% endwith %}{{ w1 }}",
 )
 
+# data-dependent statements of every kind: under contention (k tasks, one shared parsed
+# Template, different data per task) any value stashed on a shared node shows in the output
+CONC_SNIPPETS = (
+    "{{ h[key] }}", "{{ user[key] }}", "{{ products[idx].title }}", "{{ nested[n][idx] }}", "{{ user.tags[n] }}",
+    "{{ products[user.tags.size].title }}", "{{ s | append: user.name | prepend: products[0].title }}",
+    "{{ user.name | replace: user.name, t | upcase }}", "{{ n | plus: user.age | times: m }}",
+    "{{ user.name if user.active else user.address.city | upcase || append: s }}",
+    "{{ 'a ${user.name} b ${products[0].title | downcase}' }}", "{{ products | map: 'title' | join: user.name }}",
+    "{{ products | where: 'active' | map: i => i.title | join: ',' }}", "{{ nums | sum | plus: user.age }}",
+    "{% for p in products limit: m offset: n %}{{ p.title }}{{ forloop.index }}{% else %}none{{ user.name }}{% endfor %}",
+    "{% for t in user.tags %}{% for p in products %}{{ forloop.parentloop.index }}{{ t }}{{ p.price }}{% endfor %}{% endfor %}",
+    "{% if user.active and user.age > n %}A{{ user.name }}{% elsif user.tags contains 'vip' %}B{% else %}C{{ user.address.city }}{% endif %}",
+    "{% unless user.active %}U{{ user.name }}{% else %}V{% endunless %}",
+    "{% case user.name %}{% when s, t %}S{% when 'alice' or 'bob' %}AB{{ user.age }}{% else %}E{{ user.name }}{% endcase %}",
+    "{% assign x = user.name | append: s %}{% capture c %}{{ x }}{{ user.age }}{% endcapture %}{{ c }}",
+    "{% cycle user.name, s, t %}{% cycle user.name, s, t %}", "{% increment c1 %}{% decrement c1 %}{{ c1 }}",
+    "{% include 'gvp' %}", "{% include 'gvp' with user as who %}", "{% render 'gvp', user: user, gv: s %}",
+    "{% render 'dir/gvq.html' for user.tags as user %}", "{% macro mm a, b: s %}{{ a }}{{ b }}{{ user.name }}{% endmacro %}{% call mm user.age, b: t %}",
+    "{% with who: user.name, z: who %}{{ who }}{{ z }}{% endwith %}",
+    "{% translate who: user.name, count: n %}Hi {{ who }}{% plural %}His {{ who }} {{ count }}{% endtranslate %}",
+    "{% liquid\nassign lq = user.name | upcase\necho lq\nfor q in user.tags\n  echo q\nendfor\n%}",
+    "{% echo user.address.city | default: s %}", "{{ (1..n) | join: user.name }}", "{{ user.tags | concat: nums | join: '-' }}",
+    "{{ user.name | t }}", "{{ user.age | money }}", "{{ products.first.title }}{{ products.last.price }}{{ user.tags.size }}",
+)
+
 _CTS = None
 
 
@@ -250,6 +275,33 @@ def execute(plan: dict) -> dict:
                     raise Violation("twin_mismatch", op=i, policy=pol, opkind=plan["ops"][i]["kind"],
                                     sync=_short(b), async_=_short(a))
             count("async_batches")
+        # small cases: sweep EVERY interleaving (depth-first over decision vectors)
+        first = segs.raw.get("p0", [])
+        if plan.get("decisions") is None and len(plan["ops"]) >= 2 and 2 <= len(first) <= 8:
+            cap = 60
+            prefix: list[int] = []
+            n_sched = 0
+            complete = False
+            while n_sched < cap:
+                esegs = common.Segments(plan["seed"], "fifo", {"e": prefix})
+                got = run_async_world(plan, esegs, sid="e")
+                n_sched += 1
+                for i, (a, b) in enumerate(zip(got, ref)):
+                    if a != b:
+                        segs.decisions["p0"] = esegs.decisions["e"]
+                        raise Violation("twin_mismatch", op=i, policy="enumerated", opkind=plan["ops"][i]["kind"],
+                                        sync=_short(b), async_=_short(a), schedule=esegs.decisions["e"])
+                dec = esegs.raw["e"]
+                j = len(dec) - 1
+                while j >= 0 and dec[j][0] + 1 >= dec[j][1]:
+                    j -= 1
+                if j < 0:
+                    complete = True
+                    break
+                prefix = [d[0] for d in dec[:j]] + [dec[j][0] + 1]
+            count("schedules_enumerated", n_sched)
+            if complete:
+                count("interleavings_exhausted_small_cases")
         if segs.parks + segs.jobs > 0:
             for r, op in zip(ref, plan["ops"]):
                 if r[0] == "ok" or r[1] not in ("LiquidSyntaxError",):
@@ -324,11 +376,18 @@ def gen_plan(seed: int, tier: str) -> dict:
     r = rng.random()
     n_prog = rng.choice([1, 1, 2])
     designed = rng.random() < 0.1
+    conc = (not designed) and rng.random() < 0.12
+    if conc:
+        n_prog = 1
     for _ in range(n_prog):
         if designed:
             source = "designed-analysis"
             partials.update(AN_PARTIALS)
             progs.append({"src": rng.choice(AN_MAINS), "data": gprog.make_data(rng)})
+        elif conc:
+            source = "designed-contention"
+            progs.append({"src": "|".join(rng.sample(list(CONC_SNIPPETS), rng.randint(2, 7))),
+                          "data": gprog.make_data(rng)})
         elif cases and r < 0.3:
             source = "cts"
             case = rng.choice(cases)
@@ -356,7 +415,7 @@ def gen_plan(seed: int, tier: str) -> dict:
     if rng.random() < 0.3:
         for p in progs:
             p["name"] = rng.choice(["main", "dir/main.html"])
-    k = rng.choice([1, 2, 2, 3, 4])
+    k = rng.choice([2, 3, 4]) if conc else rng.choice([1, 2, 2, 3, 4])
     ops = []
     names = list(partials)
     contention = rng.random() < 0.2  # several tasks load the SAME name with different globals
@@ -364,7 +423,7 @@ def gen_plan(seed: int, tier: str) -> dict:
     pkg_names = ["pk_one", "pk_child", "snippets/pk_card", "snippets/pk_line.html", "pk_bad", "pk_none"]
     for _ in range(k):
         pi = rng.randrange(len(progs))
-        kind = rng.choices(["render", "analyze", "helpers"], [2, 5, 3] if designed else [7, 2, 1])[0]
+        kind = rng.choices(["render", "analyze", "helpers"], [2, 5, 3] if designed else ([1, 0, 0] if conc else [7, 2, 1]))[0]
         op = {"kind": kind, "prog": pi}
         if contention and loader != "pkg":
             op = {"kind": "render", "name": cname, "globals": {"gv": f"G{len(ops)}"}}
@@ -380,7 +439,7 @@ def gen_plan(seed: int, tier: str) -> dict:
             if rng.random() < 0.4:
                 op["globals"] = {"gv": rng.choice(["G1", "G2"])}
         base = progs[pi]["data"]
-        if rng.random() < 0.5 and source == "gen":
+        if conc or (rng.random() < 0.5 and source == "gen"):
             data = gprog.make_data(rng)  # each concurrent render gets its own data
         else:
             data = base
@@ -390,7 +449,7 @@ def gen_plan(seed: int, tier: str) -> dict:
             if "name" in op and rng.random() < 0.5:
                 op["ns_kw"] = rng.choice(["t1", "t2"])
         op["data"] = data
-        m = rng.random()
+        m = rng.random() * (0.8 if conc else 1.0)
         if m < 0.55:
             op["drops"] = {"mode": "all", "seq": rng.random() < 0.5}
         elif m < 0.8:
